@@ -46,8 +46,15 @@ def generate(tier, seed):
     for i in range(12 if tier == "quick" else 150):
         n = rnd.choice([65, 129])
         dt = 2.0 ** rnd.randint(-5, -3)
-        kind = rnd.choice(["multiple", "multiple", "fraction", "beyond", "tiny"])
-        if kind == "multiple":
+        kind = ["multiple", "near", "fraction", "beyond", "tiny", "near", "multiple", "near"][i % 8]
+        if kind == "near":
+            # delays within a few steps of the queue's horizon (the queue built by py_simulate_model has one slot per grid point):
+            # the clamp to the last slot is exercised from both sides
+            m = n + rnd.choice([-3, -2, -1, 0, 0, 1, 2])
+            f = rnd.choice([0.0, 0.0, 0.25, 0.3, 0.7])
+            d = (m + f) * dt
+            kind = "multiple" if f == 0.0 else "fraction"
+        elif kind == "multiple":
             m = rnd.randint(1, 12)
             d = m * dt
         elif kind == "fraction":
@@ -251,8 +258,13 @@ def run_window(case):
     g = case["grid"]
     tp = g["t0"] + g["dt"] * np.arange(g["n"])
     m = case["m"]
-    lo_shift = m + 1 if case["wkind"] == "multiple" else m + 2
-    hi_shift = m
+    cols = g["n"]                 # slots of the queue (harness-built and py_simulate_model's alike)
+    # a firing first visible at row r is queued at slot offset o in {m-1, m} (d = m dt) or {m-1, m, m+1} (d = (m+f) dt), clamped to
+    # [0, cols-1], and becomes visible at row r + o + 1
+    o_min = min(max(m - 1, 0), cols - 1)
+    o_max = min(m if case["wkind"] == "multiple" else m + 1, cols - 1)
+    lo_shift = o_max + 1
+    hi_shift = o_min + 1
     nontrivial_n = 0
     for sim in ("delay", "psm_delay"):
         for seed in case["seeds"]:
